@@ -67,7 +67,7 @@ class Harness:
 
     def run(self, func, args, **kw):
         it = self.interp(**kw)
-        so = Opaque("self", "obj")
+        so = Opaque("self", "FeatureDB")
         so.attrs["dialect"] = Opaque("DIALECT", "dict")
         try:
             traces = it.run(func, args, self_obj=so)
@@ -212,7 +212,7 @@ def check(ctx):
     before = [snapshot(x) for x in (A, B, C)]
     # the harness hands the very objects to the code under evaluation (no copy): compare after the run
     it = H.interp()
-    so = Opaque("self", "obj")
+    so = Opaque("self", "FeatureDB")
     try:
         traces = it.run(f, {fp: [A, B, C]}, self_obj=so, copy_args=False)
     except Unsupported as e:
@@ -256,7 +256,7 @@ def check(ctx):
         for gp, par in ((Sym("gp", "str", True), Sym("p", "str", True)), (None, None)):
             it = H.interp()
             try:
-                traces = it.run(g_, {"grandparent_featuretype": gp, "parent_featuretype": par}, self_obj=Opaque("self", "obj"))
+                traces = it.run(g_, {"grandparent_featuretype": gp, "parent_featuretype": par}, self_obj=Opaque("self", "FeatureDB"))
             except Unsupported as e:
                 ctx.require(False, "%s outside the analysable subset: %s" % (g_.qual, e))
             ok = all(t_.result[0] == "raise" and t_.result[1] == "ValueError" for t_ in traces)
